@@ -409,7 +409,10 @@ fn call_sync(bytes: &[u8], h: &MerkleHash) -> CallOutcome {
             out.verdict = Verdict::Accept {
                 footer_kind: if v1 { "v1" } else { "v0" },
             };
-            if let Err(e) = check_accept(bytes, fs, h, &cas, v1) {
+            // a footer converted from the v0 form carries no unpacked offsets; whenever the footer the
+            // validator relied on does carry them, they must match the chunk data
+            let has_unpacked = v1 || !cas.info.unpacked_chunk_offsets.is_empty();
+            if let Err(e) = check_accept(bytes, fs, h, &cas, has_unpacked) {
                 out.problem = Some(("val-sync-unsound-accept".into(), e));
             }
         },
@@ -564,7 +567,7 @@ fn v0_footer(hash: &H, bnds: &[u32], hashes: &[H]) -> Vec<u8> {
 
 fn apply_mutation(rng: &mut Rng, buf: &[u8], lay: &Layout, other: Option<&(Vec<u8>, Layout)>) -> (Vec<u8>, String) {
     let mut m = buf.to_vec();
-    let kind = rng.below(14);
+    let kind = rng.below(16);
     let name;
     match kind {
         0 => {
@@ -686,6 +689,26 @@ fn apply_mutation(rng: &mut Rng, buf: &[u8], lay: &Layout, other: Option<&(Vec<u
             let p = l - 4 - 16 - if rng.chance(1, 2) { 4 } else { 8 };
             let v: u32 = *rng.pick(&[0u32, 0xffff_ffff, 0x7fff_fff0, l as u32, 24, 28]);
             m[p..p + 4].copy_from_slice(&v.to_le_bytes());
+        },
+        13 | 14 => {
+            // version downgrade / change of one of the three version bytes, optionally together with a
+            // change in the section that the version byte governs
+            name = "version-byte+payload";
+            let n = lay.chunk_header_offsets.len();
+            let fs = lay.footer_start;
+            let which = rng.below(3);
+            let (vpos, sec_lo, sec_hi) = match which {
+                0 => (fs + 7, fs + 8, lay.len - 4),
+                1 => (fs + 47, fs + 52, fs + 52 + 32 * n),
+                _ => (fs + 59 + 32 * n, fs + 64 + 32 * n, fs + 64 + 40 * n),
+            };
+            if vpos < m.len() {
+                m[vpos] = *rng.pick(&[0u8, 2, 255, m[vpos] ^ 1]);
+            }
+            if rng.chance(2, 3) && sec_hi > sec_lo && sec_hi <= m.len() {
+                let p = rng.urange(sec_lo, sec_hi - 1);
+                m[p] = m[p].wrapping_add(rng.range(1, 255) as u8);
+            }
         },
         _ => {
             name = "footer-field-random";
